@@ -60,7 +60,23 @@ def atomic_tie(ctx):
     ctx.oblige("tie:make_mut-in-place-iff-ref_count==1", "ref_count == 1" in mm and "ts_subtree_clone" in mm and "ts_subtree_release" in mm, mm[:200])
 
 
+class _JudgeFirst:
+    """Buffers violations and hands the ones with a concrete failing input to ctx first
+    (ctx.finish writes replay files for the first few only)."""
+    def __init__(self, ctx):
+        self.ctx, self.buf = ctx, []
+
+    def violation(self, kind, what, payload, fingerprint=None, found_input=True):
+        self.buf.append((0 if (found_input and kind == "judge") else 1, len(self.buf), kind, what, payload, fingerprint, found_input))
+
+    def flush(self):
+        for _, _, kind, what, payload, fp, fi in sorted(self.buf, key=lambda x: (x[0], x[1])):
+            self.ctx.violation(kind, what, payload, fingerprint=fp, found_input=fi)
+        self.buf = []
+
+
 def run(ctx):
+    jf = _JudgeFirst(ctx)
     ctx.trusted += [
         "hand model TsVerif/C08/Model.lean of retain/release/clone/make_mut/edit-skeleton/tree copy+delete (tied by correspondence on full heap dumps)",
         "TsVerif/C10/Model.lean (lead's port of the edit geometry) decides which nodes an edit visits and their new payload",
@@ -75,6 +91,7 @@ def run(ctx):
     driver = ctx.build_driver("tsv-c08")
     explorer = ctx.cargo_bin("c08")
     if not (explorer and os.path.exists(driver)):
+        jf.flush()
         return ctx.finish()
     ops = os.path.join(ctx.workdir, "ops.txt")
     if ctx.replay:
@@ -87,6 +104,7 @@ def run(ctx):
     ctx.log(out.strip().split("\n")[-1] if out.strip() else "explorer silent")
     if rc != 0:
         ctx.oblige("run:explorer", False, out[-800:])
+        jf.flush()
         return ctx.finish()
     specs, threads, alloc, kinds = {}, [], None, {}
     for line in open(ops):
@@ -126,25 +144,25 @@ def run(ctx):
         if kv["judge"] != "ok":
             judge_bad += 1
             clause = kv["judge"].split(":")[1] if ":" in kv["judge"] else kv["judge"]
-            ctx.violation("judge", "C08 judge failed on the real heap after `%s`: %s" % (kv["op"], kv["judge"]), payload,
+            jf.violation("judge", "C08 judge failed on the real heap after `%s`: %s" % (kv["op"], kv["judge"]), payload,
                           fingerprint={"clause": clause, "op": kv["op"]})
         if kv["corr"] != "na":
             corr_cmp += 1
             if kv["corr"] != "ok":
                 corr_bad += 1
-                ctx.violation("corr", "model heap and real heap disagree after `%s`: %s" % (kv["op"], kv["corr"]),
+                jf.violation("corr", "model heap and real heap disagree after `%s`: %s" % (kv["op"], kv["corr"]),
                               dict(payload, correspondence="TsVerif.C08.State.{copy,delete,edit} vs lib/src/tree.c + subtree.c"),
                               fingerprint={"corr": "diff", "op": kv["op"]}, found_input=False)
     for cid, kv in threads:
         evals += 1
         if kv.get("obs_equal") != "1":
             judge_bad += 1
-            ctx.violation("judge", "threaded run differs from the sequential run of the same per-thread sequences (%s)" % specs.get(cid, cid),
+            jf.violation("judge", "threaded run differs from the sequential run of the same per-thread sequences (%s)" % specs.get(cid, cid),
                           {"case": cid, "spec": specs.get(cid, ""), "result": kv}, fingerprint={"clause": "threads", "op": "threads"})
     evals += 1
     if not alloc or alloc.get("live") != "0":
         judge_bad += 1
-        ctx.violation("judge", "allocator balance is not zero after every handle was released: %s" % alloc,
+        jf.violation("judge", "allocator balance is not zero after every handle was released: %s" % alloc,
                       {"case": "alloc", "spec": "\n".join(specs.values()), "result": alloc}, fingerprint={"clause": "alloc", "op": "all"})
     ctx.oblige("corr:heap-model=subtree.c", corr_bad == 0, "%d disagreements" % corr_bad)
     ctx.coverage.update({
@@ -161,4 +179,5 @@ def run(ctx):
     })
     if evals <= 1:
         ctx.oblige("run:driver-produced-results", False, out[-500:])
+    jf.flush()
     return ctx.finish()
